@@ -13,6 +13,7 @@ import (
 	"sync"
 	"testing"
 	"time"
+	"unicode/utf8"
 	"unsafe"
 
 	"github.com/hashicorp/eventlogger"
@@ -64,10 +65,14 @@ func formatterProp(t *rapid.T, s *stats.Section) {
 	{
 		d := jsonval.Gen(t, rapid.IntRange(0, 4).Draw(t, "depth"), rapid.IntRange(0, 3).Draw(t, "unenc") == 0)
 		et := rapid.SampledFrom(eventTypes).Draw(t, "eventType")
+		if rapid.IntRange(0, 2).Draw(t, "genType") == 0 {
+			// arbitrary bytes: control characters, DEL, invalid / truncated UTF-8, astral runes
+			et = string(rapid.SliceOfN(rapid.SampledFrom([]byte{0, 1, 7, 0x0b, 0x1b, 0x1f, ' ', '"', '\\', 'a', 'Z', 0x7f, 0x80, 0xc3, 0xa9, 0xe2, 0x98, 0x83, 0xf3, 0xa0, 0x80, 0x81, 0xff, 0xfe}), 0, 8).Draw(t, "typeBytes"))
+		}
 		created := time.Date(rapid.IntRange(1, 9999).Draw(t, "year"), time.Month(rapid.IntRange(1, 12).Draw(t, "mon")), 28, 23, 59, 58, rapid.IntRange(0, 999999999).Draw(t, "nanos"),
 			time.FixedZone("x", rapid.SampledFrom([]int{0, 0, 3600, -8 * 3600, 5*3600 + 2700}).Draw(t, "zoneOff")))
 		node := rapid.SampledFrom([]string{"JSONFormatter", "JSONFormatterFilter"}).Draw(t, "node")
-		pred := rapid.SampledFrom([]string{"nil", "true", "false", "error"}).Draw(t, "predicate")
+		pred := rapid.SampledFrom([]string{"nil", "true", "false", "error", "true+error"}).Draw(t, "predicate")
 		preFmt := rapid.Bool().Draw(t, "preexistingFormat")
 		desc := fmt.Sprintf("%s pred=%s type=%q created=%s payload=%s", node, pred, et, created.Format(time.RFC3339Nano), d)
 
@@ -92,6 +97,8 @@ func formatterProp(t *rapid.T, s *stats.Section) {
 				ff.Predicate = func(e interface{}) (bool, error) { predArg = e; return false, nil }
 			case "error":
 				ff.Predicate = func(e interface{}) (bool, error) { predArg = e; return false, predErr }
+			case "true+error":
+				ff.Predicate = func(e interface{}) (bool, error) { predArg = e; return true, predErr }
 			}
 			n = ff
 		}
@@ -120,9 +127,9 @@ func formatterProp(t *rapid.T, s *stats.Section) {
 			if err != nil || out != nil {
 				t.Fatalf("VIOLATION C14: predicate false must drop the event without error (event=%v err=%v)\ncase: %s", out != nil, err, desc)
 			}
-		case "error":
+		case "error", "true+error":
 			if err == nil || out != nil {
-				t.Fatalf("VIOLATION C14: predicate error must surface as an error (event=%v err=%v)\ncase: %s", out != nil, err, desc)
+				t.Fatalf("VIOLATION C14: predicate error must surface as an error and nothing be forwarded (event=%v err=%v)\ncase: %s", out != nil, err, desc)
 			}
 		}
 		if pred != "nil" && predArg == nil {
@@ -156,7 +163,7 @@ func formatterProp(t *rapid.T, s *stats.Section) {
 			t.Fatalf("VIOLATION C14: created_at %s does not decode to the event's creation time %s (%v)\ncase: %s", members["created_at"], created, err, desc)
 		}
 		var gotType string
-		if err := json.Unmarshal(members["event_type"], &gotType); err != nil || gotType != et {
+		if err := json.Unmarshal(members["event_type"], &gotType); err != nil || gotType != jsonCoerce(et) {
 			t.Fatalf("VIOLATION C14: event_type %s does not decode to %q\ncase: %s", members["event_type"], et, desc)
 		}
 		want, merr := json.Marshal(twin)
@@ -190,6 +197,21 @@ func formatterProp(t *rapid.T, s *stats.Section) {
 }
 
 func containsFuncOrChan(d jsonval.Desc) bool { return false }
+
+// jsonCoerce is what a JSON string round trip makes of a Go string: every invalid UTF-8 byte becomes U+FFFD.
+func jsonCoerce(s string) string {
+	var sb strings.Builder
+	for i := 0; i < len(s); {
+		r, n := utf8.DecodeRuneInString(s[i:])
+		if r == utf8.RuneError && n == 1 {
+			sb.WriteRune(0xfffd)
+		} else {
+			sb.WriteString(s[i : i+n])
+		}
+		i += n
+	}
+	return sb.String()
+}
 
 func TestC14Filter(t *testing.T) {
 	sec := stats.Sec("filter", "rapid: eventlogger.Filter with predicate outcomes true/false/error over generated events; oracle = forwards (same pointer) iff true, drops iff false, error iff predicate error; non-trivial = error or false outcome")
